@@ -97,6 +97,63 @@ func checkC12(c *Ctx) {
 			}
 		}
 	}
+	// identity maps of the named targets are read-only for the clean-up
+	rt2 := c.Rule("C12.targets-readonly", "identity maps obtained from schema.GetIdentityFieldValuesMap* in association mode are only read (the set of named targets is the same for every parent record)", 1)
+	for i := 0; i < assocT.NumMethods(); i++ {
+		f := p.SrcOpt(assocT.Method(i))
+		if f == nil {
+			continue
+		}
+		info := f.Pkg.TypesInfo
+		maps := map[types.Object]*ast.Ident{}
+		ast.Inspect(f.Body, func(n ast.Node) bool {
+			as, ok := n.(*ast.AssignStmt)
+			if !ok || len(as.Rhs) != 1 || len(as.Lhs) != 2 {
+				return true
+			}
+			ce, ok := unparen(as.Rhs[0]).(*ast.CallExpr)
+			if !ok {
+				return true
+			}
+			fn, _ := typeutil.Callee(info, ce).(*types.Func)
+			if fn == nil || fn.Pkg() == nil || fn.Pkg().Path() != pkgSchema || !strings.HasPrefix(fn.Name(), "GetIdentityFieldValuesMap") {
+				return true
+			}
+			if id, ok := as.Lhs[0].(*ast.Ident); ok && id.Name != "_" {
+				if o := info.Defs[id]; o != nil {
+					maps[o] = id
+				} else if o := info.Uses[id]; o != nil {
+					maps[o] = id
+				}
+			}
+			return true
+		})
+		for obj, id := range maps {
+			var writes []string
+			ast.Inspect(f.Body, func(n ast.Node) bool {
+				switch x := n.(type) {
+				case *ast.AssignStmt:
+					for _, l := range x.Lhs {
+						if ix, ok := unparen(l).(*ast.IndexExpr); ok {
+							if mid, ok := unparen(ix.X).(*ast.Ident); ok && info.Uses[mid] == obj {
+								writes = append(writes, p.Pos(x.Pos())+": element assignment")
+							}
+						}
+					}
+				case *ast.CallExpr:
+					if fid, ok := x.Fun.(*ast.Ident); ok && fid.Name == "delete" && len(x.Args) == 2 {
+						if mid, ok := unparen(x.Args[0]).(*ast.Ident); ok && info.Uses[mid] == obj {
+							writes = append(writes, p.Pos(x.Pos())+": delete")
+						}
+					}
+				}
+				return true
+			})
+			c.Touch(f)
+			rt2.Check(len(writes) == 0, f.Name(), "identity map "+id.Name+" read-only", id.Pos(), "the set of named targets stays fixed during the operation", "the identity map of the targets named in the call is modified while it is being used: records processed later (or duplicates in the relation field) are judged against a different target set, so the in-memory relation and the stored links disagree", writes...)
+		}
+	}
+
 	r.Check(nRecord >= 3 && nLink >= 2 && nDetach >= 3, "gorm.Association", "census", assocT.Obj().Pos(), itoa(nRecord)+" record deletions, "+itoa(nLink)+" link deletions, "+itoa(nDetach)+" detaching updates", "association mode lost its record/link deletion sites; rule lost its anchors")
 }
 
